@@ -397,6 +397,35 @@ def rule_render_time(ctx, px):
     ctx.floor(R, n, 4)
 
 
+def cached_property_per_instance(px):
+    """nunavut._utilities.cached_property memoises per *instance*: __get__ keeps the value in the instance (its __dict__ / setattr on it)
+    and writes nothing to the descriptor, which is one object per class and shared by every instance"""
+    cls = px.cls("nunavut._utilities", "cached_property")
+    g = cls.methods.get("__get__")
+    if g is None:
+        return False, "cached_property.__get__ vanished"
+    ps = [a.arg for a in g.node.args.args]
+    me, inst = ps[0], ps[1]
+    own_writes = []
+    for n in ast.walk(g.node):
+        tg = n.targets if isinstance(n, ast.Assign) else ([n.target] if isinstance(n, (ast.AugAssign, ast.AnnAssign)) and getattr(n, "value", None) is not None else [])
+        for t_ in tg:
+            if isinstance(t_, ast.Attribute) and isinstance(t_.value, ast.Name) and t_.value.id == me:
+                own_writes.append(ast.unparse(t_))
+            if isinstance(t_, ast.Subscript) and any(isinstance(x, ast.Name) and x.id == me for x in ast.walk(t_.value)) and \
+                    not any(isinstance(x, ast.Name) and x.id == inst for x in ast.walk(t_.value)):
+                own_writes.append(ast.unparse(t_))
+    if own_writes:
+        return False, (f"__get__ stores into the descriptor ({own_writes}): the value computed for the first object of a class is handed to every later object "
+                       "(the token encoder of one Language object answers for another one with other stropping rules)")
+    # the store goes to the instance
+    src = ast.unparse(g.node)
+    stores_in_instance = f"{inst}.__dict__" in src or f"setattr({inst}" in src or f"object.__setattr__({inst}" in src
+    if not stores_in_instance:
+        return False, "the computed value is not stored in the instance"
+    return True, "value kept in the instance's __dict__ under the property name; the descriptor holds only the function and the name"
+
+
 def rule_memo(ctx, px, R="R-C10-MEMO"):
     ctx.rule(
         R,
@@ -404,6 +433,8 @@ def rule_memo(ctx, px, R="R-C10-MEMO"):
         "function of its arguments (incl. self) only: its body reads no ambient state and no attribute of self that "
         "is written outside __init__, and mutates nothing",
     )
+    okp, whyp = cached_property_per_instance(px)
+    ctx.ob(R, "src/nunavut/_utilities.py", "cached_property :: one value per instance", okp, whyp)
     fb = {id(f.node): f for f in px.all_funcs}
     # attributes written outside __init__, per class
     mutable_attrs = {}
@@ -557,6 +588,33 @@ def rule_fresh_ctx(ctx, px, ts):
                 ctx.ob(R, t.rel, f"{bad_here} @ {j2front.construct_path(stack)}", False,
                        "template mutates a namespace shared by all files of the run", getattr(node, "lineno", None))
     ctx.ob(R, "src/nunavut/lang", "built-in templates: writes to shared namespaces", n == 0, f"{len(ts.templates)} templates scanned")
+    # a template that is imported without context is evaluated once per environment and its module is cached: what its top level
+    # computes must not depend on anything that changes from call to call or file to file
+    PER_CALL = {"nunavut", "T", "now_utc"}
+    imported = {}
+    for t in ts.templates:
+        for node in t.ast.find_all((N.Import, N.FromImport)):
+            if isinstance(node.template, N.Const) and not node.with_context:
+                imported.setdefault((t.lang, t.kind, node.template.value), []).append(t.rel)
+    k = 0
+    for t in ts.templates:
+        if (t.lang, t.kind, t.name) not in imported:
+            continue
+        for node in t.ast.body:
+            if isinstance(node, N.Macro):
+                continue
+            for a in [node] + list(node.find_all(N.Assign)):
+                if not isinstance(a, N.Assign):
+                    continue
+                # inside a macro it is evaluated per call
+                names = {x.name for x in a.node.find_all(N.Name)} | ({a.node.name} if isinstance(a.node, N.Name) else set())
+                hit = sorted(names & PER_CALL)
+                k += 1
+                tgt = j2front.xs(a.target)
+                ctx.ob(R, t.rel, f"top-level `set {tgt}` of a template imported without context reads nothing that changes per call", not hit,
+                       "" if not hit else f"reads {hit}: `{t.name}` is imported without context (by {sorted(set(imported[(t.lang, t.kind, t.name)]))[:2]}), so the value is computed once "
+                       "per generator and reused for every later file and every later generate_all() call, whatever its arguments", getattr(a, "lineno", None))
+    ctx.unit("module_level_sets_in_context_free_imports", k)
 
 
 def run(ctx):
